@@ -16,7 +16,7 @@ CLAIMED = {
          "broadcast_isolated, caller_mutation_invisible, check_iff_unset, iterpairs_exact/sorted/nodup and the ValueTable map laws; the same model runs in the "
          "driver and is compared with real PairTables/ValueTables after every op of random histories incl. identity (`is`) probes.",
          "4 C14", "Lean 4 proof (heap-level refinement by induction over op lists) + differential correspondence"),
- 'C13': ("Lean theorems about the MatrixArray model: binop_pointwise/binop_ok_iff (every operator x operand kind, element for element, incl. length-1 broadcast), "
+ 'C13': ("Lean theorems about the MatrixArray model: binop_pointwise/binop_ok_iff (every operator x operand kind incl. per-column vectors, element for element, incl. length-1 broadcast), binop_short_left (a length-1 LEFT operand out of place is stretched to the right operand's length; in place it is refused), "
          "dot_is_matrix_mul/dot_is_Matrix_mul (Mathlib Matrix product per grid point), invert_spec (identity, under the external inverse's specification), "
          "setPair_symmetric/getPair_either_order/unknown_type_error, space_rule (decision table), and at object level (explicit buffer store) reachable_inv "
          "(distinct objects never share a buffer, any op sequence), outOfPlace_fresh, inPlace_only_left, inplace_eq_outofplace, inplace_seq_eq_outofplace_seq, "
@@ -94,7 +94,7 @@ CLAIMED = {
  'C09': ("Lean theorems about the closure model: py/hnc/msa/msA/msB_eq_published, core_branch (all closures, every r <= sigma), py/hnc/msa_linearises "
          "(|c+u| <= 2(gamma^2+u^2) on |gamma|,|u| <= 1/2), msA/msB_linearises (the two published Martynov-Sarkisov forms, |c+u| <= 12(gamma^2+u^2) on |gamma|,|u| <= 1/4), elementwise, and for the shipped Martynov-Sarkisov expression ms_shipped_formula plus the negation witness "
          "ms_shipped_not_zero_at_zero (known finding F6, pinned by a baseline test); the model is compared with all 8 classes/aliases on the real grid with bit-exact masks; "
-         "published relations and purity/element-wise probes are evaluated on the implementation.",
+         "published relations, purity/element-wise probes and call HISTORIES (a closure object called repeatedly, also with its own previous output as gamma, must return what a fresh object returns and leave its arguments alone) are evaluated on the implementation.",
          "4 C09", "Lean 4 proof (algebraic laws, exp inequalities) + differential correspondence"),
  'C10': ("Lean theorems about the potential model: hardSphere/exponential/hclj_def, hard_core_set (one common core set {r <= sigma}), lj_def, lj_zero_beyond_cut, "
          "lj_cut_inside, lj_shifted_zero_at_cut, lj_shifted_continuous (ContinuousOn (0,inf)), wca_inside (= 4 eps ((sigma/r)^6 - 1/2)^2), wca_nonneg, wca_zero_beyond, "
@@ -105,7 +105,7 @@ CLAIMED = {
  'C11': ("Lean theorems about the omega model: closed_form_is_pair_sum (all N >= 1, E != 1), gaussian_E_pos_lt_one, fjc_E_lt_one, gaussian/fjc_is_pair_sum (every k > 0), "
          "omega_le_N, gaussian/fjc_le_N, gaussian_tendsto_N, gaussian_tendsto_one, fjc_tendsto_N (Filter.Tendsto), ring_is_pair_sum, ring_le_N, ring_at_zero, singleSite_one, "
          "noIntra_zero; PARTIAL for Koyama/NFJC (kernels are parameters): koyama_is_pair_sum_partial, koyama_le_N_partial, koyama_limit_values_partial, nfjc_is_pair_sum_partial, "
-         "and the negation witness koyama_shipped_limit for the repaired loop defect; float cancellation of the closed form at small k is outside the reals (known finding F10). "
+         "koyama_ctor_ok_iff / koyama_lpmin_pos / koyama_params_ok (the constructor's accept/reject decision and the derived parameters of an accepted chain), and the negation witness koyama_shipped_limit for the repaired loop defect; float cancellation of the closed form at small k is outside the reals (known finding F10). "
          "The model is compared with every class/alias on log grids and real Domain k grids; the long-double pair sum, finiteness, <= N, limits, element-wise and ValueError "
          "predicates are evaluated on the implementation.",
          "4 C11", "Lean 4 proof (induction, geometric sums, limits) + differential correspondence; partial for Koyama/NFJC kernels"),
@@ -114,8 +114,8 @@ CLAIMED = {
          "omega = omega(k) rho_site on the k grid, symmetric, Fourier). Object level (Model/SysHeap.lean: potentials/closures are cells of an explicit store, PairTable assignment and deepcopy(sys) allocate, "
          "PRISM.__init__ writes only its copies): step_isolated, later_edits_do_not_reach_prism and reachable_inv (induction over ARBITRARY operation sequences: no cell owned by an existing PRISM object ever "
          "changes, System references and PRISM-owned cells stay disjoint), snapshot_wiring_values (with C15's invariants: closure sigma = (d_a+d_b)/2, omega scaled by rho_a / rho_a+rho_b), create_does_not_write_system (the System's meaning absSys is unchanged by createPRISM), sweep_equals_fresh (the PRISM created after any "
-         "history is createPRISM of the System's current meaning), create_refused_iff, and the negation witness aliased_create_changes_system for the variant that iterates the caller's table. The store model "
-         "runs in the driver and is compared after EVERY operation of random edit/create/solve histories with the hidden object state of the real System and of every PRISM object created so far.",
+         "history is createPRISM of the System's current meaning), create_refused_iff, step_abs and history_refines_spec (REFINEMENT: under the abstraction absSys every store-level history is the corresponding history of the plain value-level System, for arbitrary operation lists), and the negation witness aliased_create_changes_system for the variant that iterates the caller's table. The store model "
+         "runs in the driver and is compared after EVERY operation of random edit/create/solve histories with the hidden object state of the real System and of every PRISM object created so far (histories include in-place edits of the System's Domain object, one-statement group assignments and several PRISM objects per System); the wiring statement is also evaluated independently on every new PRISM object.",
          "4 C16", "Lean 4 proof (decision logic + object-store invariant by induction over operation histories) + differential correspondence"),
  'C17': ("Lean theorems at formula level (Model/UnitConv.lean): kelvin_formula/linear, celsius_offset (K - 273.15) and celsius_affine, inv_angstrom_formula/linear, inv_nanometer_is_ten_inv_angstrom, "
          "concentration_formula/linear (rho*/(d_c^3 N_A) in mol/L), volume_fraction_formula (rho* (4/3) pi (d/2)^3 = rho* pi d^3/6) and linear, elementwise. The Lean content is small and said to be small: "
